@@ -16,7 +16,7 @@ one() {
   for id in ${HCHECKS:-C01 C02 C03 C04 C05 C06 C07 C08 C09 C10 C11 C12 C13 C14 C15 C16 C17 C18 C19 C20}; do
     v=$(cd $W/verif && VERIF_ROOT=$W/verif VERIF_REPO=$W/repo ./check $id quick 2>&1 | grep -E "^(OK|VIOLATION|INFRA)" | tail -1 | cut -c1-150)
     case "$v" in OK*) ;; *) bad=$((bad+1)); r=$(echo "$v" | grep -oE "replay=[^ ]+" | cut -d= -f2)
-      w=""; [ -n "$r" ] && [ -f "$r" ] && w=$(python3 /verif/tools/showreplay.py $r 2>/dev/null | head -6 | cut -c1-300 | tr '\n' '~')
+      w=""; [ -n "$r" ] && [ -f "$r" ] && w=$(python3 /verif/tools/showreplay.py $r 2>/dev/null | head -8 | cut -c1-900 | tr '\n' '~')
       echo "$name $id ALARM: $(echo $v | sed "s#$W##g") :: $w";; esac
   done
   echo "$name done alarms=$bad"
